@@ -3974,3 +3974,157 @@ def c14_from_file_wiring():
                 out.append(struct(tag + '.metadata', bool(okf), 'data_folded=%s, pop_ids=%s, mask_corners passed through (got %s, %s)' % (want['folded'], want['ids'], kw.get('data_folded'), got_ids), fn))
         return out
     return go()
+
+
+def c10_scramble(ns):
+    """Spectrum.scramble_pop_ids on an unfolded spectrum of sample sizes ns (every entry symbolic; _lncomb uninterpreted):
+         out[idx] = exp( sum_i lncomb(n_i, idx_i) - lncomb(N, D) ) * sum_{idx': |idx'| = D} f[idx'],   D = |idx| = sum of idx, N = sum of ns
+    i.e. chromosomes are pooled by their total derived count and re-dealt to the populations hypergeometrically."""
+    ns = tuple(ns)
+    oid = 'C10/Spectrum_mod.py:Spectrum.scramble_pop_ids/ns' + '_'.join(map(str, ns))
+    fn = 'dadi/Spectrum_mod.py::Spectrum.scramble_pop_ids'
+
+    @guarded(oid, fn)
+    def go():
+        shape = tuple(k + 1 for k in ns)
+        P = len(ns)
+        N = sum(ns)
+        f0 = {i: z3.Real('f' + '_'.join(map(str, i))) for i in itertools.product(*[range(s) for s in shape])}
+        data = _nd_build(shape, lambda i: f0[i])
+        lnc = uf('lncomb', 2)
+
+        def gh(ex_, obj, name, ctx):
+            if obj is data:
+                if name == 'folded':
+                    return False
+                if name == 'sample_sizes':
+                    return VList(list(ns), 'ndarray')
+                if name in ('ndim', 'Npop'):
+                    return P
+                if name == '_total_per_entry':
+                    return PyFn(lambda: _nd_build(shape, lambda i: sum(i)), '_total_per_entry')
+                if name == '_counts_per_entry':
+                    return PyFn(lambda: _nd_build(shape + (P,), lambda i: i[-1] if False else i[:P][i[P]]), '_counts_per_entry')
+            return NotImplemented
+
+        def pol(fr):
+            if fr.qualname == '_lncomb':
+                return lambda ex_, f_, a, kw: lnc(to_real(exact(a[0])), to_real(exact(a[1])))
+            return 'inline' if fr.qualname == 'Spectrum.scramble_pop_ids' else 'abstract'
+
+        def ah(ex_, fref, a, kw, ctx):
+            if (isinstance(fref, ClassRef) and fref.node.name == 'Spectrum') or (isinstance(fref, Tm) and 'Spectrum' in fref.op):
+                return a[0]
+            return NotImplemented
+        ex = Executor(policy=pol, getattr_hook=gh)
+        ex.abstract_hook = ah
+        fr = ex.func('dadi/Spectrum_mod.py', 'Spectrum.scramble_pop_ids')
+        paths = ex.run(fr, [data], dict(mask_corners=False))
+        if len(paths) != 1 or paths[0].outcome != 'return':
+            return [struct(oid, False, 'expected one returning path: %r' % paths[:2], fn, undecided=True)]
+        res = paths[0].value
+        got_shape = ex.list_method(res, 'shape') if isinstance(res, VList) else None
+        out = [struct(oid + '.shape', got_shape == shape, 'same shape (got %s)' % (got_shape,), fn)]
+        if got_shape != shape:
+            return out
+        exp = uf('exp')
+        for idx in f0:
+            D = sum(idx)
+            pooled = sum((f0[j] for j in f0 if sum(j) == D), z3.RealVal(0))
+            arg = sum((lnc(z3.RealVal(ns[i]), z3.RealVal(idx[i])) for i in range(P)), z3.RealVal(0)) - lnc(z3.RealVal(N), z3.RealVal(D))
+            out.append(prove_eq('%s.entry%s' % (oid, '_'.join(map(str, idx))), list(paths[0].pc), _nd_get(res, idx), exp(arg) * pooled, fn))
+        return out
+    return go()
+
+
+def c14_array_file_wiring():
+    """Numerics.array_to_file / array_from_file (the generic writer/reader): comments ('# ' + stripped text), one line with every extent of data.shape,
+    masked arrays written through .filled(), the entries by data.tofile(fid, ' ', '%.<precision>g') (numpy writes in logical order), a final newline;
+    a file name is opened and closed, an open file object is used as it is and left open.  The reader strips the comments, reads the extents from the
+    first non-comment line, then count = prod(shape) numbers with sep=' ' and reshapes to that shape; comments returned on request."""
+    oid = 'C14/Numerics.py:array_file'
+    out = []
+    fnw, fnr = 'dadi/Numerics.py::array_to_file', 'dadi/Numerics.py::array_from_file'
+
+    @guarded(oid, fnw)
+    def go():
+        import os as _os
+        for given_name in (True, False):
+            for masked in (False, True):
+                tag = '%s.to_file.%s.%s' % (oid, 'name' if given_name else 'fileobj', 'masked' if masked else 'plain')
+                log, opened = [], []
+                fid = Tm('fid')
+                fid.attrs['write'] = PyFn(lambda s_: log.append(('write', s_)), 'fid.write')
+                fid.attrs['close'] = PyFn(lambda: log.append(('close',)), 'fid.close')
+                data = Tm('data')
+                data.attrs['shape'] = (2, 3)
+
+                def tofile(*a, _who='data'):
+                    log.append(('tofile', _who, list(a)))
+                data.attrs['tofile'] = PyFn(tofile, 'data.tofile')
+                if masked:
+                    filled = Tm('filled')
+                    filled.attrs['tofile'] = PyFn(lambda *a: log.append(('tofile', 'filled', list(a))), 'filled.tofile')
+                    filled.attrs['shape'] = (2, 3)
+                    data.attrs['filled'] = PyFn(lambda: filled, 'data.filled')
+
+                def ah(ex_, fref, a, kw, ctx):
+                    return NotImplemented
+                ex = Executor()
+                ex.abstract_hook = ah
+                ex.builtins['open'] = PyFn(lambda *a, **k: (opened.append(list(a)), fid)[1], 'open')
+
+                def hasattr_(o, n):
+                    if o is fid or isinstance(o, Tm):
+                        return n in o.attrs
+                    return hasattr(o, n) if not isinstance(o, str) else hasattr('', n)
+                ex.builtins['hasattr'] = PyFn(hasattr_, 'hasattr')
+                f = ex.func('dadi/Numerics.py', 'array_to_file')
+                paths = ex.run(f, [data, 'arr.txt' if given_name else fid], dict(precision=17, comment_lines=VList([' note '])))
+                if len(paths) != 1 or paths[0].outcome != 'return':
+                    out.append(struct(tag, False, 'expected one returning path: %r' % paths[:2], fnw, undecided=True))
+                    continue
+                nl = '<os.linesep>'
+                piece = lambda v: v if isinstance(v, str) else (nl if 'linesep' in vrepr(v) else '<%s>' % vrepr(v))
+                tf = [x for x in log if x[0] == 'tofile']
+                k = [i for i, x in enumerate(log) if x[0] == 'tofile']
+                before = ''.join(piece(x[1]) for x in log[:k[0]] if x[0] == 'write') if k else None
+                after = ''.join(piece(x[1]) for x in log[k[0] + 1:] if x[0] == 'write') if k else None
+                out.append(struct(tag + '.header', before == '# note' + nl + '2 3 ' + nl and after == nl, 'comment, extents line, entries, final newline (before %r, after %r)' % (before, after), fnw))
+                okt = len(tf) == 1 and tf[0][1] == ('filled' if masked else 'data') and tf[0][2][0] is fid and tf[0][2][1:] == [' ', '%.17g']
+                out.append(struct(tag + '.entries', bool(okt), "%s.tofile(fid, ' ', '%%.17g')" % ('data.filled()' if masked else 'data'), fnw))
+                closes = [x for x in log if x[0] == 'close']
+                out.append(struct(tag + '.open-close', (opened == [['arr.txt', 'w']] and len(closes) == 1) if given_name else (not opened and not closes), 'a name is opened for writing and closed; a file object is left open', fnw))
+        for given_name in (True, False):
+            tag = '%s.from_file.%s' % (oid, 'name' if given_name else 'fileobj')
+            lines = iter(['# a\n', '#b \n', '2 3\n'])
+            log, opened, reads = [], [], []
+            fid = Tm('fid')
+            fid.attrs['readline'] = PyFn(lambda: next(lines, ''), 'fid.readline')
+            fid.attrs['read'] = PyFn(lambda *a: '', 'fid.read')
+            fid.attrs['close'] = PyFn(lambda: log.append('close'), 'fid.close')
+
+            def ah(ex_, fref, a, kw, ctx):
+                nm = vrepr(fref)
+                if 'fromfile' in nm:
+                    reads.append((list(a), dict(kw)))
+                    t = Tm('flat')
+                    t.attrs['reshape'] = PyFn(lambda *shp: (reads.append(('reshape', tuple(exact(x) for x in shp))), Tm('shaped'))[1], 'reshape')
+                    return t
+                return NotImplemented
+            ex = Executor()
+            ex.abstract_hook = ah
+            ex.builtins['open'] = PyFn(lambda *a, **k: (opened.append(list(a)), fid)[1], 'open')
+            ex.builtins['hasattr'] = PyFn(lambda o, n: (n in o.attrs) if isinstance(o, Tm) else hasattr(o, n), 'hasattr')
+            f = ex.func('dadi/Numerics.py', 'array_from_file')
+            paths = ex.run(f, ['arr.txt' if given_name else fid], dict(return_comments=True))
+            if len(paths) != 1 or paths[0].outcome != 'return':
+                out.append(struct(tag, False, 'expected one returning path: %r' % paths[:2], fnr, undecided=True))
+                continue
+            val, comments = paths[0].value
+            okr = len(reads) == 2 and reads[0][0][0] is fid and exact(reads[0][1].get('count')) == 6 and reads[0][1].get('sep') == ' ' and reads[1] == ('reshape', (2, 3))
+            out.append(struct(tag + '.entries', bool(okr), "fromfile(fid, count=6, sep=' ').reshape(2, 3): %s" % (reads,), fnr))
+            out.append(struct(tag + '.comments', list(ex.iterate(comments)) == ['a', 'b'] and isinstance(val, Tm) and val.op == 'shaped', 'comments without # and blanks: %s' % list(ex.iterate(comments)), fnr))
+            out.append(struct(tag + '.open-close', (opened == [['arr.txt', 'r']] and log == ['close']) if given_name else (not opened and not log), 'a name is opened for reading and closed; a file object is left open', fnr))
+        return out
+    return go()
